@@ -41,6 +41,9 @@ package rpm
 //@   modifies [C11 C12] &info.Arch, &info.Release, &info.Contents, &info.RPM.Compression
 //
 //@ inline func createFilesInsideRPM(info *nfpm.Info, rpm *rpmpack.RPM) (err error)
+//@   requires [C08] info != nil && rpm != nil && files.SpecContentsNonNil(info.Contents)
+//@   requires [C08] nfpm.SpecPlanOK(info.Contents, !info.MTime.IsZero())
+//@   requires !ghostFlag("failed") && !ghostFlag("clockRead") && !ghostFlag("envRead")
 //@   loop 0
 //@     invariant [C06] no-failure-so-far: !ghostFlag("failed")
 //@     invariant [C07] no-clock-so-far: implies(!old(info.MTime.IsZero()), !ghostFlag("clockRead"))
@@ -56,8 +59,33 @@ package rpm
 //
 //@ import "github.com/goreleaser/nfpm/v2/files"
 //
+//@ spec func rpmFlagOf(t string) rpmpack.FileType {
+//@     switch t {
+//@     case "config":
+//@         return rpmpack.ConfigFile
+//@     case "config|noreplace":
+//@         return rpmpack.ConfigFile | rpmpack.NoReplaceFile
+//@     case "config|missingok":
+//@         return rpmpack.ConfigFile | rpmpack.MissingOkFile
+//@     case "ghost":
+//@         return rpmpack.GhostFile
+//@     case "doc":
+//@         return rpmpack.DocFile
+//@     case "licence", "license":
+//@         return rpmpack.LicenceFile
+//@     case "readme":
+//@         return rpmpack.ReadmeFile
+//@     }
+//@     return rpmpack.GenericFile
+//@ }
+//
 //@ inline func asRPMFile(content *files.Content, fileType rpmpack.FileType) (file *rpmpack.RPMFile, err error)
+//@   requires content != nil && content.FileInfo != nil
+//@   expects [C08] flags-exactly-as-declared: fileType == rpmFlagOf(content.Type)
+//@   expects [C08] ghost-has-a-mode: content.Type != "ghost" || content.FileInfo.Mode != 0
 //@   assume [C06 C08] ghost-source-is-optional: implies(content.Type == "ghost", ufBool("fsOptional", content.Source))
+//@   ensures [C08 C01] record: implies(err == nil, file != nil && file.Type == fileType && file.Name == content.Destination && file.Mode == uint(content.FileInfo.Mode) && file.Owner == content.FileInfo.Owner && file.Group == content.FileInfo.Group)
+//@   ensures [C01] body: implies(err == nil && content.Type != "ghost", string(file.Body) == fsContent(content.Source))
 //
 //@ spec func archOf(arch, override string) string {
 //@     if override != "" { return override }
